@@ -13,7 +13,7 @@ ENTRY = {
         # finding is replayable from that one line (mutated bytes are in the line, base64).
         {"name": "codec", "drive": "drive-codec", "model": "drv-sszwrap",
          "reset_ops": _OPS,
-         "n_quick": 600, "seeds_quick": 1, "n_thorough": 6000, "seeds_thorough": 3,
+         "n_quick": 600, "seeds_quick": 1, "n_thorough": 6000, "seeds_thorough": 2,
          "search_seeds": 1},
     ],
     "level": "proof (partial: panic-freedom is explored, not proved)",
